@@ -24,6 +24,12 @@ Step(e) ==
             IF e.res = "ok" /\ ~e.own THEN Flag("late_reply_handed_to_later_request")
             ELSE IF e.res # "ok" THEN Flag("later_request_failed")
             ELSE Stutter
+      \* degenerate request timeouts (0, below a millisecond, 1 ms) and a replier that never answers: "a timely error"
+      [] e.ev = "edge_timeout" ->
+            IF e.res = "timeout" /\ e.ms <= 3000 THEN Stutter
+            ELSE IF e.res = "timeout" THEN Flag("timeout_reported_far_too_late")
+            ELSE IF e.res = "ok" THEN Flag("unanswered_request_returned_ok")
+            ELSE Flag("request_with_tiny_timeout_did_not_report_a_timeout")
       [] e.ev = "harness_error" -> Flag("exchange_could_not_be_set_up")
       [] e.ev = "done" -> IF nret # Len(modes) THEN Flag("calls_never_returned") ELSE Stutter
       [] OTHER -> Stutter
